@@ -21,6 +21,7 @@ type dataChunk struct {
 	wbuf        []*WriteRecord
 
 	rewriting bool
+	rewritten bool // the old content of a file being rewritten in place has been read to its end
 	gcbufsize uint32
 	gcWriter  *DataStreamWriter
 }
@@ -219,6 +220,7 @@ func (dc *dataChunk) beginGCWriting(srcChunk int) (err error) {
 	logger.Infof("BeginGCWriting chunk %d from %d rewrite %v size %d wsize %d ", dc.chunkid, srcChunk, dc.rewriting, dc.size, dc.writingHead)
 	if dc.chunkid == srcChunk {
 		dc.rewriting = true
+		dc.rewritten = false
 		dc.writingHead = 0
 		logger.Infof("rewrite %s", dc.path)
 	} else {
@@ -237,7 +239,11 @@ func (dc *dataChunk) beginGCWriting(srcChunk int) (err error) {
 // truncateRewritten cuts a file that is being rewritten in place down to what has been
 // written so far; the gc writer stays open and keeps appending at that offset.
 func (dc *dataChunk) truncateRewritten() {
-	if !dc.rewriting || dc.gcWriter == nil || dc.writingHead >= dc.size {
+	if !dc.rewriting || dc.gcWriter == nil {
+		return
+	}
+	dc.rewritten = true
+	if dc.writingHead >= dc.size {
 		return
 	}
 	if err := dc.gcWriter.wbuf.Flush(); err != nil {
@@ -259,11 +265,14 @@ func (dc *dataChunk) endGCWriting() (err error) {
 		dc.gcWriter.Close()
 		dc.gcWriter = nil
 	}
-	if dc.rewriting && dc.writingHead < dc.size {
+	// what lies beyond the write head is stale only if the old content has been collected
+	// completely: a pass cancelled (or failed) before that must leave the rest of the file alone
+	if dc.rewriting && dc.rewritten && dc.writingHead < dc.size {
 		dc.Truncate(dc.writingHead)
 		dc.size = dc.writingHead
 	}
 	dc.rewriting = false
+	dc.rewritten = false
 	if utils.VerifOn {
 		utils.Verif("g.endwrite", dc.path, dc.chunkid, dc.size)
 	}
